@@ -23,7 +23,7 @@ META = {
                     "tolerance 1e-9*(1+sum|terms|)", "events strictly inside cells/bins: reference gridding known by construction"],
     "deciding": ["trace:observed_statistic", "trace:test_distribution[j]~simulated_catalog[j]"],
 }
-META["added"] = 'Added: per-simulation prescribed-count clause, low-rate L-tests (Poisson draw often 0), tiny-rate bins holding events, catalogs gridded on another region before the test, shared object histories / layouts from gridcases (regridded or in-place re-ordered catalogs, Fortran / transposed tables). array-valued scale factors.'
+META["added"] = 'Added: per-simulation prescribed-count clause, low-rate L-tests (Poisson draw often 0), tiny-rate bins holding events, catalogs gridded on another region before the test, shared object histories / layouts from gridcases (regridded or in-place re-ordered catalogs, Fortran / transposed tables). array-valued scale factors. evaluated / re-scaled / evaluated histories, on-edge magnitudes.'
 MANIFEST = {
     "technique": "boundary event log around the real _simulate_catalog + offline trace checker aligning test_distribution[j] with simulated catalog j; independent log-pmf oracle on observed statistic of the four public tests",
     "level_text": "For each generated forecast/catalog pair the four public Poisson tests run for real; the observed statistic and every test-distribution entry (aligned with the recorded simulated catalogs) are compared with an independent Poisson log-pmf sum; -inf iff an event lies in a zero-rate bin is decided exactly.",
@@ -80,6 +80,13 @@ def ex_case(ctx, case, test="L", num_sim=5, seed=1, inject=False, layout="C", sc
         fore.scale(scale)
         rates = (rates / scale) * scale
     fn = {"L": pe.likelihood_test, "CL": pe.conditional_likelihood_test, "S": pe.spatial_test, "M": pe.magnitude_test}[test]
+    if pre == "rescaled-after-evaluation":
+        # history on one forecast object: evaluated under another scale factor, re-scaled to the factor in force, evaluated again
+        s0 = fore._scale
+        fore.scale(numpy.asarray(s0) * 0.37)
+        ctx.call(fn, fore, cat, num_simulations=1, seed=0)
+        fore.scale(s0)
+        ctx.mon("history:evaluated-rescaled-evaluated", 1)
     lam, wobs = lam_w_for(test, rates, w)
     rc = {"exec": "case", "args": {"case": case, "test": test, "num_sim": num_sim, "seed": seed, "inject": inject, "layout": layout,
                                    "scale": scale_tag, "pre": pre}}
@@ -165,7 +172,7 @@ def run(ctx):
         scale = None if j % 4 else (float(r.choice([0.5, 2.0, 10.0])) if j % 8 else str(r.choice(["percell", "permag", "full"])))
         for test in TESTS:
             ex_case(ctx, case, test, num_sim=int(r.choice([1, 3, 6])), seed=int(r.integers(0, 1000)), inject=bool(j % 3 == 0),
-                    layout=layout, scale=scale, pre="regridded" if j % 6 == 1 else None)
+                    layout=layout, scale=scale, pre="regridded" if j % 6 == 1 else ("rescaled-after-evaluation" if j % 6 == 4 else None))
         if j % 50 == 0:
             ctx.sample({"cells": case["nx"] * case["ny"], "mags": case["nmag"], "n_events": len(case["ev_cell"]),
                         "rates_first_row": case["rates"][0][:4], "total_rate": float(numpy.sum(case["rates"])),
